@@ -134,6 +134,9 @@ def collect(ctx, prop, stream, programs, results, crashes, config, optimize0, ki
             else:
                 notes[f['key']] = notes.get(f['key'], 0) + 1
     for c in crashes:
+        if prop != 'C01':       # a dead interpreter leaves no object to check: counted by C01 only
+            notes['interpreter-crash'] = notes.get('interpreter-crash', 0) + 1
+            continue
         key = crash_key(prop, c)
         prog = programs[c['index']]
         res = results[c['index']]
